@@ -25,6 +25,7 @@ Representation choices (all of them named here so that the reader can check them
   the writer).  `off` is a ghost label: the absolute offset, in the stream's application byte stream (the
   concatenation of all `h ++ data` enqueued for the stream since it was established), of the first
   remaining byte.  It is what lets C02 talk about byte identity.
+* Items addressing stream id 0 or ids ≥ 2^31 (`Op.outside`; the Framer refuses to write them) are not modelled either.
 * The HPACK-encoded header block length (`l.hBuf.Len()` after encoding) is an input (`hb`) of every op that
   can write a header block: HPACK itself is not modelled.
 * `ssGoAwayHandler` (`http2Client/http2Server.outgoingGoAwayHandler`) is the writer's environment: its
@@ -144,7 +145,7 @@ def St.quota (s : St) (id : Nat) : Int := (s.oiws : Int) - (s.str id).bytesOut
 /-- The fragment sizes produced by `writeHeader`'s loop for a header block of `L` bytes:
 `size := hBuf.Len(); if size > http2MaxFrameLen { size = http2MaxFrameLen } else { endHeaders = true }`. -/
 def headerFrags (m L : Nat) : List Nat :=
-  if h : 0 < m ∧ m < L then m :: headerFrags m (L - m) else [L]
+  if _h : 0 < m ∧ m < L then m :: headerFrags m (L - m) else [L]
 termination_by L
 decreasing_by omega
 
@@ -152,12 +153,15 @@ decreasing_by omega
 def writeHeader (id : Nat) (es : Bool) (hb : Nat) (onWrite : Bool) : List Out :=
   (if onWrite then [Out.cb .onWrite id] else []) ++ [Out.headers id es (headerFrags maxFrameLen hb)]
 
+/-- `delete(l.estdStreams, id)` + `str.deleteSelf()` (when the stream is established). -/
+def removeStream (s : St) (id : Nat) : St :=
+  if id ∈ s.keys then { s with keys := s.keys.filter (· ≠ id), active := s.active.filter (· ≠ id) } else s
+
 /-- `cleanupStreamHandler`. -/
 def cleanupStream (s : St) (id : Nat) (rst : Bool) (code : Nat) : Res :=
-  let s1 : St := if id ∈ s.keys then
-      { s with keys := s.keys.filter (· ≠ id), active := s.active.filter (· ≠ id) } else s
-  let outs := Out.cb .cleanupOnWrite id :: (if rst then [Out.rst id code] else [])
-  if s1.draining ∧ s1.keys = [] then ⟨s1, outs, .err .drainDone⟩ else ⟨s1, outs, .ok⟩
+  let s1 := removeStream s id
+  ⟨s1, Out.cb .cleanupOnWrite id :: (if rst then [Out.rst id code] else []),
+   if s1.draining ∧ s1.keys = [] then .err .drainDone else .ok⟩
 
 /-- `incomingWindowUpdateHandler`. -/
 def incomingWindowUpdate (s : St) (id inc : Nat) : Res :=
@@ -279,8 +283,8 @@ def processData (s : St) (hb : Nat) : Res :=
         updateStreamAfterWrite s2 id hb
           [.cb .onEachWrite id, .data id off size (es && rem == 0)]
 
-/-- `handle` / `processData`, before error bookkeeping. -/
-def handle (s : St) : Op → Res
+/-- `handle`'s type switch / `processData`. -/
+def handleItem (s : St) : Op → Res
   | .winUpdate id inc => incomingWindowUpdate s id inc
   | .outWinUpdate id inc => ⟨s, [.windowUpdate id inc], .ok⟩
   | .settings ss order => ⟨applySettings s ss order, [.settingsAck], .ok⟩
@@ -298,6 +302,19 @@ def handle (s : St) : Op → Res
   | .outFlowReq => ⟨s, [], .quota s.sendQuota⟩
   | .unknown => ⟨s, [], .err .unknown⟩
   | .tick hb => processData s hb
+
+/-- Items the x/net/http2 Framer refuses to write (`errStreamID`: stream id 0 or ≥ 2^31 on HEADERS / RST_STREAM,
+"illegal window increment value" on WINDOW_UPDATE). The transports never produce them (stream ids are 1 … 2^31−1); they
+are outside the model like duplicate registrations. -/
+def Op.outside : Op → Bool
+  | .register id | .clientHeaders id _ _ | .serverHeaders id _ _ _ _ | .data id _ _ _ | .cleanup id _ _
+  | .earlyAbort id _ _ => id = 0 ∨ 2 ^ 31 ≤ id
+  | .outWinUpdate id inc => 2 ^ 31 ≤ id ∨ inc = 0 ∨ 2 ^ 31 ≤ inc
+  | _ => false
+
+/-- `handle` / `processData`, before error bookkeeping. -/
+def handle (s : St) (o : Op) : Res :=
+  if o.outside then ⟨s, [.unmodelled], .ok⟩ else handleItem s o
 
 def Ret.isErr : Ret → Bool
   | .err _ => true
